@@ -563,9 +563,11 @@ class _parser:
             # Convert dateobj to utc time to compare with self.now
             try:
                 tz = tz or get_timezone_from_tz_string(self.settings.TIMEZONE)
-                tz_offset = tz.utcoffset(dateobj)
+                # dateobj may have been made aware above; pytz wants the wall time
+                wall_time = dateobj.replace(tzinfo=None)
+                tz_offset = tz.utcoffset(wall_time)
             except pytz.AmbiguousTimeError:
-                tz_offset = tz.utcoffset(dateobj, is_dst=False)
+                tz_offset = tz.utcoffset(wall_time, is_dst=False)
             except (pytz.UnknownTimeZoneError, pytz.NonExistentTimeError):
                 tz_offset = timedelta(hours=0)
 
